@@ -30,6 +30,8 @@ def gen_score(rng, junk=False):
     if k >= 12:
         # scores finer than a hundredth: only the SUM is rounded
         return rng.choice(['12.5%', '2.5%', '0.5%', '+2.5%', '-2.5%', '37.5%', '0.4%', '0.2%', 0.125, 0.375, '0.125', '-0.125', '+0.005', 0.005,
+                           # written without the leading zero
+                           '.5', '.25', '.5%', '+.2', '-.1',
                            # floats that Python prints in exponent notation
                            0.00001, 0.00005, 2.5e-05])
     n = rng.randrange(0, 60)
